@@ -112,12 +112,12 @@ static std::string jstr(const std::string& s) {
 }
 
 int main(int argc, char** argv) {
-    std::string alphabet = "smoke", oracles, scratch, out, replayStr, tier = "quick"; int depth = 3, workers = 16; size_t maxStates = 3000000; double deadlineS = 1e9, hang = 30; bool list = false, dump = false;
+    std::string alphabet = "smoke", oracles, scratch, out, replayStr, tier = "quick", saveFile; int depth = 3, workers = 16; size_t maxStates = 3000000; double deadlineS = 1e9, hang = 30; bool list = false, dump = false;
     for (int i = 1; i < argc; ++i) {
         std::string a = argv[i]; auto nxt = [&]() { if (i + 1 >= argc) { fprintf(stderr, "missing value for %s\n", a.c_str()); exit(2); } return std::string(argv[++i]); };
         if (a == "--alphabet") alphabet = nxt(); else if (a == "--oracles") oracles = nxt(); else if (a == "--depth") depth = atoi(nxt().c_str()); else if (a == "--workers") workers = atoi(nxt().c_str());
         else if (a == "--maxstates") maxStates = (size_t)atoll(nxt().c_str()); else if (a == "--deadline") deadlineS = atof(nxt().c_str()); else if (a == "--scratch") scratch = nxt(); else if (a == "--out") out = nxt();
-        else if (a == "--replay") replayStr = nxt(); else if (a == "--tier") tier = nxt(); else if (a == "--list") list = true; else if (a == "--dump") dump = true; else if (a == "--hang") hang = atof(nxt().c_str());
+        else if (a == "--replay") replayStr = nxt(); else if (a == "--tier") tier = nxt(); else if (a == "--list") list = true; else if (a == "--dump") dump = true; else if (a == "--hang") hang = atof(nxt().c_str()); else if (a == "--savefile") saveFile = nxt();
         else { fprintf(stderr, "unknown arg %s\n", a.c_str()); return 2; }
     }
 #ifdef VF_ASAN
@@ -137,7 +137,7 @@ int main(int argc, char** argv) {
         for (size_t i = 0; i <= h.size(); ++i) {
             WSnap pre = snapWorld(w);
             { Sink s2; E.stateOracles(w, pre, s2, st, nullptr); for (auto& v : s2) { printf("  STATE-VIOLATION after step %zu: %s %s :: %s\n", i, v.prop.c_str(), v.sig.c_str(), v.detail.c_str()); nviol++; } }
-            if (i == h.size()) { if (dump) printf("%s", pre.text.c_str()); break; }
+            if (i == h.size()) { if (dump) printf("%s", pre.text.c_str()); if (!saveFile.empty()) guarded([&] { w.c->write(saveFile); }); break; }
             const Op& op = E.ops[h[i]]; CallInfo ci; std::string what; Outcome oc = guarded([&] { op.apply(w, pre, ci); }, &what);
             WSnap post = snapWorld(w);
             printf("step %zu: %s -> %s%s%s\n", i + 1, op.name.c_str(), outcomeName(oc), what.empty() ? "" : " : ", what.c_str());
